@@ -97,6 +97,43 @@ def parseOpen (g : Cfg) (s : String) : Option (List Call) :=
 
 def hungLine : String := "hung"
 
+mutual
+partial def evLoop (h : IO.FS.Stream) (d : DS) (bits : String) (more : List String) : IO Unit := do
+
+  let ks := parseKs ((Drv.field more "K").getD "-")
+  let cb : Option (Option Call) := match Drv.field more "cb" with
+    | none => some none
+    | some c => (parseCall d.g (c.splitOn "/")).map some
+  let race : Option (Option Call) := match Drv.field more "race" with
+    | none => some none
+    | some c => if bits == "i" && (Drv.field more "cb").isNone then (parseCall d.g (c.splitOn "/")).map some else none
+  match ks, cb, race with
+  | some ks, some cb, some race =>
+    let out := bits.contains 'o'; let inn := bits.contains 'i'; let err := bits.contains 'e'
+    let dl := evDeliv d.g d.s out inn err
+    let s1 := evTakeOp d.g d.s out inn err ks
+    let (d1, _) := observe d s1
+    -- the data callback runs its call while the event is being handled
+    let (d2, cbs) := match cb with
+      | some c => if dl.2.1 && !d1.s.hung && !d1.s.closed then   -- a closed conn reads ErrClosed: no data callback
+                    let (s2, r) := doCall d.g d1.s c
+                    ((observe d1 s2).1, showRet r)
+                  else (d1, "-")
+      | none => (d1, "-")
+    let (d3, str) := observe { d2 with nctl := d.nctl } (teardown (evEnd d.g d2.s))
+    if d3.s.hung then IO.println hungLine; loop h { d3 with dead := true }
+    else
+      -- a racing call of another goroutine waits for the conn mutex: it runs after the poller's tail
+      let (d4, rcs, str) := match race with
+        | some c =>
+          let (s4, r) := doCall d.g d3.s c
+          let (d4, str4) := observe { d3 with nctl := d.nctl } { s4 with ctl := s4.ctl }
+          (d4, showRet r, str4)
+        | none => (d3, "-", str)
+      let dstr := (if dl.1 then "o" else "") ++ (if dl.2.1 then "i" else "") ++ (if dl.2.2 then "e" else "")
+      IO.println s!"R deliv={if dstr == "" then "-" else dstr} cb={cbs} rc={rcs} {str}"; loop h d4
+  | _, _, _ => IO.println "bad-op"; loop h { d with dead := true }
+
 partial def loop (h : IO.FS.Stream) (d : DS) : IO Unit := do
   let line ← h.getLine
   if line.isEmpty then return ()
@@ -133,40 +170,23 @@ partial def loop (h : IO.FS.Stream) (d : DS) : IO Unit := do
   | "O" :: rest =>
     if d.dead then IO.println "dead"; loop h d
     else match rest with
-    | "event" :: bits :: more =>
-      let ks := parseKs ((Drv.field more "K").getD "-")
-      let cb : Option (Option Call) := match Drv.field more "cb" with
-        | none => some none
-        | some c => (parseCall d.g (c.splitOn "/")).map some
-      let race : Option (Option Call) := match Drv.field more "race" with
-        | none => some none
-        | some c => if bits == "i" && (Drv.field more "cb").isNone then (parseCall d.g (c.splitOn "/")).map some else none
-      match ks, cb, race with
-      | some ks, some cb, some race =>
-        let out := bits.contains 'o'; let inn := bits.contains 'i'; let err := bits.contains 'e'
-        let dl := evDeliv d.g d.s out inn err
-        let s1 := evTakeOp d.g d.s out inn err ks
-        let (d1, _) := observe d s1
-        -- the data callback runs its call while the event is being handled
-        let (d2, cbs) := match cb with
-          | some c => if dl.2.1 && !d1.s.hung && !d1.s.closed then   -- a closed conn reads ErrClosed: no data callback
-                        let (s2, r) := doCall d.g d1.s c
-                        ((observe d1 s2).1, showRet r)
-                      else (d1, "-")
-          | none => (d1, "-")
-        let (d3, str) := observe { d2 with nctl := d.nctl } (teardown (evEnd d.g d2.s))
-        if d3.s.hung then IO.println hungLine; loop h { d3 with dead := true }
-        else
-          -- a racing call of another goroutine waits for the conn mutex: it runs after the poller's tail
-          let (d4, rcs, str) := match race with
-            | some c =>
-              let (s4, r) := doCall d.g d3.s c
-              let (d4, str4) := observe { d3 with nctl := d.nctl } { s4 with ctl := s4.ctl }
-              (d4, showRet r, str4)
-            | none => (d3, "-", str)
-          let dstr := (if dl.1 then "o" else "") ++ (if dl.2.1 then "i" else "") ++ (if dl.2.2 then "e" else "")
-          IO.println s!"R deliv={if dstr == "" then "-" else dstr} cb={cbs} rc={rcs} {str}"; loop h d4
-      | _, _, _ => IO.println "bad-op"; loop h { d with dead := true }
+    | "event" :: "o" :: more =>
+      match Drv.field more "park" with
+      | some pc =>
+        -- a writer parked inside its critical section while the event arrives: the poller's flush waits for
+        -- the mutex, so the call comes first, then the event
+        match parseKs ((Drv.field more "K").getD "-"), parseCall d.g (pc.splitOn "/") with
+        | some ks, some c =>
+          let (s1, r) := doCall d.g d.s c
+          let (d1, _) := observe d s1
+          let dl := evDeliv d.g d1.s true false false
+          let s2 := teardown (evEnd d.g (evTakeOp d.g d1.s true false false ks))
+          let (d2, str) := observe { d1 with nctl := d.nctl } s2
+          if d2.s.hung then IO.println hungLine; loop h { d2 with dead := true }
+          else IO.println s!"R deliv={if dl.1 then "o" else "-"} cb=- rc={showRet r} {str}"; loop h d2
+        | _, _ => IO.println "bad-op"; loop h { d with dead := true }
+      | none => evLoop h d "o" more
+    | "event" :: bits :: more => evLoop h d bits more
     | "close" :: more =>
       -- Close: flip; a racing call of another goroutine inside the teardown window; teardown
       let race : Option (Option Call) := match Drv.field more "race" with
@@ -204,6 +224,8 @@ partial def loop (h : IO.FS.Stream) (d : DS) : IO Unit := do
       let (d', str) := observe d d.s
       IO.println s!"Q {str}"; loop h d'
   | _ => IO.println "bad-op"; loop h { d with dead := true }
+
+end
 
 def main : IO Unit := do
   loop (← IO.getStdin) { g := { mode := .lt, maxWB := 0, fsize := 0, file := fileByte }, s := {}, dead := true }
